@@ -603,6 +603,10 @@ class Exec(ExprMixin, CallMixin):
                     continue  # len(xs), hash(s), range(n)...: builtins that never mutate their arguments
                 if isinstance(n.func, ast.Attribute) and isinstance(n.func.value, ast.Constant) and isinstance(n.func.value.value, str):
                     continue  # "sep".join(xs) and other methods of a str literal
+                roots = self._callee_frame_roots(n, fr, contract)
+                if roots is not None:
+                    mutated.update(roots)  # a plain function applied by CONTRACT changes only what its `modifies` lists
+                    continue
                 for a in list(n.args) + [k.value for k in n.keywords]:
                     if isinstance(a, (ast.Name, ast.Attribute)):
                         mutated.add(ast.unparse(a))
@@ -633,6 +637,42 @@ class Exec(ExprMixin, CallMixin):
             if isinstance(cur, VList) and cur.elem is None and isinstance(ltypes.get(path), SeqOf):
                 cur.elem = ltypes[path].elem  # `xs = []` before the loop: element type from the contract's types
             self.havoc_value(cur, path)
+
+    def _callee_frame_roots(self, call, fr, contract):
+        """For `f(a1, .., an)` where the bare name f denotes a module-level function that has a contract and is not
+        inlined by the function under proof: the argument expressions bound to the roots of the callee's `modifies`
+        paths (exactly what apply_contract havocs at the call site). None if the callee cannot be resolved that way."""
+        if not isinstance(call.func, ast.Name) or fr.lookup(call.func.id) is not None or fr.module is None:
+            return None
+        fi = getattr(fr.module, "functions", {}).get(call.func.id)
+        if fi is None:
+            imp = getattr(fr.module, "imports", {}).get(call.func.id)
+            if imp is None or imp[1] is None:
+                return None
+            try:
+                fv = self.resolve_import(fr.module, imp[0], imp[1], 0)
+            except Unsupported:
+                return None
+            fi = fv.info if isinstance(fv, VFunc) else None
+        if fi is None or getattr(fi, "kind", None) not in (None, "function"):
+            return None
+        c = api.REGISTRY.get(fi.key)
+        if c is None or (contract is not None and (fi.name in contract.inline or fi.key in contract.inline)):
+            return None
+        a = fi.node.args
+        if a.vararg or a.kwarg or any(isinstance(x, ast.Starred) for x in call.args) or any(k.arg is None for k in call.keywords):
+            return None
+        pnames = [x.arg for x in a.posonlyargs + a.args]
+        bound = dict(zip(pnames, call.args))
+        bound.update({k.arg: k.value for k in call.keywords})
+        roots = set()
+        for path in c.modifies:
+            arg = bound.get(path.split(".")[0])
+            if arg is None:
+                return None
+            if isinstance(arg, (ast.Name, ast.Attribute)):
+                roots.add(ast.unparse(arg))
+        return roots
 
     def havoc_value(self, v, base="havoc", depth=0):
         """In-place havoc of a mutable value's content (records recursively, lists, dicts)."""
@@ -722,6 +762,13 @@ class Exec(ExprMixin, CallMixin):
         elif isinstance(tgt, ast.Attribute):
             obj = self.eval(tgt.value, fr)
             if isinstance(obj, VRec):
+                fty = obj.ty.fields.get(tgt.attr) if isinstance(obj.ty, Rec) else None
+                if isinstance(fty, SeqOf) and fty.elem in (Str, Int) and isinstance(v, VConst) \
+                        and isinstance(v.py, (set, frozenset)) and all(type(x) is (str if fty.elem is Str else int) for x in v.py):
+                    # a constant set stored in a field the contract DECLARES as a sequence: the membership-only view
+                    # (same modelling as `x: set[str] = set()`); len / iteration order stay unsupported on it
+                    v = VList(fty.elem, items=[lift(x) for x in sorted(v.py)])
+                    v.is_set = True
                 obj.fields[tgt.attr] = v
             else:
                 raise Unsupported(f"attribute assignment on {obj}")
@@ -747,7 +794,8 @@ class Exec(ExprMixin, CallMixin):
 
 # builtins that never mutate their arguments (used by the loop-havoc over-approximation)
 _PURE_BUILTINS = frozenset(("len", "hash", "range", "str", "int", "bool", "isinstance", "abs", "repr", "type", "id",
-                            "hasattr"))
+                            "hasattr", "enumerate", "zip", "min", "max", "sorted", "tuple", "list", "any", "all", "sum",
+                            "set", "frozenset", "reversed"))
 
 
 def _as_load(t):
